@@ -85,20 +85,35 @@ Definition lb_spec_line (id : Z) (p : nat) (ws : list wspec) (impl : res (list (
      end).
 
 (* ------------------------------------------------------------------ stream batch:
-   CompassApp::run.  Table: query id -> what apply_input_plugins returned for it:
-   an error response id, or the expanded queries (child id, weight spec, response id of that
-   child: run_single_query's response, or the weight error response when the spec is WErr) *)
-Inductive pres := PErr (rid : Z) | PKids (kids : list (Z * (wspec * Z))).
+   CompassApp::run.  Every JSON value that occurs as a query or as an element of the plugin
+   state has an integer id.  Tables, all obtained from the REAL component functions:
+     stages  : for plugin k, element id -> what InputPlugin::process made of it (the ids of the
+               element(s) it became, or the id of the packaged error response)
+     nonobj  : element ids that are not JSON objects -> (not-an-object error response id,
+               invariant error response id)
+     kids    : fully processed element id -> (weight spec, response id: run_single_query's
+               response, or the weight error response when the spec is WErr) *)
+Inductive sres := SOk (l : list Z) | SErr (rid : Z).
+Record tables := {
+  t_stages : list (list (Z * sres));
+  t_nonobj : list (Z * (Z * Z));
+  t_kids : list (Z * (wspec * Z)) }.
 
-Definition all_kids (tbl : list (Z * pres)) : list (Z * (wspec * Z)) :=
-  flat_map (fun e => match snd e with PKids ks => ks | PErr _ => [] end) tbl.
-
-Definition b_plugins (tbl : list (Z * pres)) (q : Z) : list Z + Z :=
-  match zlookup tbl q with
-  | Some (PKids ks) => inl (map fst ks)
-  | Some (PErr r) => inr r
-  | None => inr (-1)%Z
-  end.
+Definition b_plugin (t : list (Z * sres)) : @Batch.plugin Z Z :=
+  fun e => match zlookup t e with
+           | Some (SOk l) => inl l
+           | Some (SErr r) => inr r
+           | None => inr (-1)%Z
+           end.
+Definition b_is_object (t : tables) (e : Z) : bool :=
+  match zlookup (t_nonobj t) e with Some _ => false | None => true end.
+Definition b_not_object_error (t : tables) (e : Z) : Z :=
+  match zlookup (t_nonobj t) e with Some (r, _) => r | None => (-3)%Z end.
+Definition b_invariant_error (t : tables) (e : Z) : Z :=
+  match zlookup (t_nonobj t) e with Some (_, r) => r | None => (-2)%Z end.
+Definition b_plugins (t : tables) : Z -> list Z + Z :=
+  Batch.apply_input_plugins (b_is_object t) (b_invariant_error t) (b_not_object_error t)
+                            (map b_plugin (t_stages t)).
 Definition b_weight (kids : list (Z * (wspec * Z))) (c : Z) : res (option FN) :=
   match zlookup kids c with Some (w, _) => w_res w | None => Err "weight" end.
 Definition b_resp (kids : list (Z * (wspec * Z))) (c : Z) : Z :=
@@ -107,45 +122,67 @@ Definition b_resp (kids : list (Z * (wspec * Z))) (c : Z) : Z :=
 Definition pol_of (discard : bool) : Batch.persistence :=
   if discard then Batch.DiscardFromMemory else Batch.PersistInMemory.
 
-Definition b_run (discard : bool) (p_cfg p_run : nat) (tbl : list (Z * pres)) (order : list Z)
+Definition b_run (discard : bool) (p_cfg p_run : nat) (t : tables) (order : list Z)
   : res (@Batch.outcome Z) :=
-  let kids := all_kids tbl in
-  @Batch.run FN Z Z (b_plugins tbl) (b_weight kids) (b_resp kids) (b_resp kids)
+  @Batch.run FN Z Z (b_plugins t) (b_weight (t_kids t)) (b_resp (t_kids t)) (b_resp (t_kids t))
              (fun r => r) (fun _ => true) (pol_of discard) p_cfg p_run order.
 
 Definition show_outcome (sink : bool) (o : @Batch.outcome Z) : string :=
   "ret=" ++ show_list show_Z (Batch.returned o)
   ++ " wr=" ++ (if sink then show_list show_Z (zsort (Batch.written o)) else "-").
 
-(* [flags]: verdicts of the harness's request-echo and expansion-count oracles, copied verbatim
+(* [flags]: verdicts of the harness's request-echo and single-response oracles, copied verbatim
    (they are not model output; the S line states what they must be) *)
-Definition batch_line (id : Z) (discard sink : bool) (p_cfg p_run : nat) (tbl : list (Z * pres))
+Definition batch_line (id : Z) (discard sink : bool) (p_cfg p_run : nat) (t : tables)
            (order : list Z) (flags : string) : string :=
-  line "M" id (match b_run discard p_cfg p_run tbl order with
+  line "M" id (match b_run discard p_cfg p_run t order with
                | Ok o => "Ok " ++ show_outcome sink o ++ flags
                | r => show_res (show_outcome sink) r
                end).
 
 (* the bins the model forms (printed next to the implementation's log in a replay) *)
-Definition batch_bins (p_cfg p_run : nat) (tbl : list (Z * pres)) (order : list Z) : string :=
-  let kids := all_kids tbl in
-  let '(processed0, _) := @Batch.input_stage Z Z (b_plugins tbl) p_cfg order in
+Definition batch_bins (p_cfg p_run : nat) (t : tables) (order : list Z) : string :=
+  let kids := t_kids t in
+  let '(processed0, _) := @Batch.input_stage Z Z (b_plugins t) p_cfg order in
   let '(processed, _) := @Batch.weight_stage FN Z Z (b_weight kids) (b_resp kids) processed0 in
   show_res show_bins (@Batch.balance FN Z (b_weight kids) processed p_run PrimFloat.one).
 
-(* the property, evaluated on the implementation's output: the call succeeds and the multiset
-   of everything it answered (returned vector, plus the sink under the discard policy) is the
-   multiset of the answers of the queries taken one by one ([alone]: response ids of
-   CompassApp::run on [q] alone with parallelism 1, supplied by the harness); every response
-   carries the request it answers and there is one response per expanded query (flags).
+(* the property, evaluated on the implementation's output: the call succeeds; the returned
+   vector (persist policy) and the sink content (when there is a sink) are, as multisets, the
+   answers of the queries taken one by one ([alone]: response ids of CompassApp::run on [q]
+   alone with parallelism 1, supplied by the harness); every response carries the request it
+   answers and a query without a grid section has exactly one response (flags).
    Parallelism 0 is outside the property (1..#cores). *)
 Definition batch_spec_line (id : Z) (discard sink : bool) (p_run : nat) (alone : list (Z * list Z))
            (order : list Z) (impl_ret impl_wr : list Z) (impl_ok : bool) : string :=
   line "S" id
     (if Nat.eqb p_run 0 then "unspecified" else
      let expected := zsort (flat_map (fun q => match zlookup alone q with Some l => l | None => [(-1)%Z] end) order) in
-     let got := zsort (if discard then impl_ret ++ impl_wr else impl_ret) in
-     if impl_ok && zlist_eqb got expected
+     let ret_ok := if discard then true else zlist_eqb (zsort impl_ret) expected in
+     let wr_ok := if sink then zlist_eqb (zsort impl_wr) expected else true in
+     if impl_ok && ret_ok && wr_ok
      then "Ok ret=" ++ show_list show_Z impl_ret
-          ++ " wr=" ++ (if sink then show_list show_Z (zsort impl_wr) else "-") ++ " echo=T count=T"
+          ++ " wr=" ++ (if sink then show_list show_Z (zsort impl_wr) else "-") ++ " echo=T single=T"
      else "REJECT expected multiset " ++ show_list show_Z expected).
+
+(* ---- expansion cases: one query alone.  M: the faithful model; S: every expanded query
+   answered on its own (Batch.answer_ideal) -- they differ exactly in the class
+   K_child_error_drops_siblings *)
+Definition show_answers (l : list Z) : string :=
+  "n=" ++ show_nat (List.length l) ++ " ids=" ++ show_list show_Z (zsort l).
+Definition expansion_line (id : Z) (t : tables) (q : Z) : string :=
+  line "M" id (match b_run false 1 1 t [q] with
+               | Ok o => "Ok " ++ show_answers (Batch.returned o)
+               | r => show_res (fun _ => "") r
+               end).
+Definition expansion_spec_line (id : Z) (t : tables) (q : Z) : string :=
+  line "S" id
+    ("Ok " ++ show_answers
+       (match map b_plugin (t_stages t) with
+        | [] => @Batch.answer FN Z Z (b_plugins t) (b_weight (t_kids t)) (b_resp (t_kids t))
+                              (b_resp (t_kids t)) (fun r => r) q
+        | grid :: later =>
+            @Batch.answer_ideal FN Z Z grid later (b_is_object t) (b_invariant_error t)
+                                (b_weight (t_kids t)) (b_resp (t_kids t)) (b_resp (t_kids t))
+                                (fun r => r) (b_not_object_error t) q
+        end)).
